@@ -599,7 +599,8 @@ namespace fixedmath
   [[ nodiscard, gnu::const, gnu::always_inline ]]
   constexpr fixed_t angle_to_radians( integral_type angle ) noexcept
     {
-    if( angle >= integral_type(0) && angle <= integral_type(360) )
+    //360 does not fit into 8 bit types, compare as promoted values instead of casting the limit to integral_type
+    if( angle >= integral_type(0) && cxx20::cmp_less_equal( angle, 360 ) )
       return integral_to_fixed(angle) * fixedmath::phi / 180;
     return quiet_NaN_result(); 
     }
